@@ -898,3 +898,34 @@ Proof.
   - cbn [vzero ZAlg]. ring.
   - unfold Sweep.vsum in IH. rewrite IH, apply_path_Z. cbn [vadd ZAlg]. ring.
 Qed.
+
+(* ---------------------------------------------------------------- a call that fails after the ordering loop *)
+Lemma backward_fails_expected A g root (b : bufs A) : wf g -> dfs_spec ->
+  forall v, backward_fails A g root b v = fails_expected A g root b v.
+Proof.
+  intros Hwf Hdfs v. unfold backward_fails, fails_expected.
+  destruct (req (getn g root)) eqn:Hreq; cbn [negb andb]; [|reflexivity].
+  assert (Hroot : root < length g).
+  { destruct (lt_dec root (length g)) as [H|H]; [exact H|]. rewrite getn_overflow in Hreq by lia. discriminate. }
+  destruct (Hdfs g root (present_of A g b) Hwf Hroot) as [ord [z [p [Hd [_ Hz]]]]].
+  rewrite Hd, fold_zero.
+  assert (E : mem v z = reachb g root v && negb (v =? root) && req (getn g v) && (negb (is_some (b v)) || negb (is_leaf (getn g v)))).
+  { destruct (mem v z) eqn:Em.
+    - apply mem_In in Em. apply Hz in Em. destruct Em as [Hne [Hre [Hrq Hc]]].
+      pose proof (sw_reachable_le g root v Hwf Hre) as Hle.
+      apply (reachb_iff g root v Hwf) in Hre. rewrite Hre, Hrq.
+      assert (Hn : (v =? root) = false) by (apply Nat.eqb_neq; exact Hne). rewrite Hn. cbn [negb andb].
+      symmetry. destruct Hc as [Hc|Hc].
+      + apply (mem_present_of A g b v) in Hc; [|lia]. rewrite Hc. reflexivity.
+      + rewrite Hc. apply orb_true_r.
+    - symmetry. destruct (reachb g root v) eqn:Hre; [|reflexivity].
+      destruct (v =? root) eqn:Hn; [reflexivity|]. destruct (req (getn g v)) eqn:Hrq; [|reflexivity]. cbn [negb andb].
+      destruct (negb (is_some (b v)) || negb (is_leaf (getn g v))) eqn:Hc; [|reflexivity].
+      exfalso. assert (Hin : In v z); [|apply mem_In in Hin; congruence].
+      apply (reachb_iff g root v Hwf) in Hre. pose proof (sw_reachable_le g root v Hwf Hre) as Hle.
+      apply Hz. split; [apply Nat.eqb_neq; exact Hn|]. split; [exact Hre|]. split; [exact Hrq|].
+      apply orb_true_iff in Hc. destruct Hc as [Hc|Hc].
+      + left. apply (mem_present_of A g b v); [lia|]. destruct (b v); [discriminate|reflexivity].
+      + right. apply negb_true_iff. exact Hc. }
+  rewrite E. reflexivity.
+Qed.
